@@ -78,10 +78,24 @@ func genSchedCase() *rapid.Generator[Case] {
 			}
 			c.Cfg.Workers = append(c.Cfg.Workers, ops)
 		}
-		// schedule: uniform picks among the runnable workers; in half of the cases
-		// the picks come in runs (a worker keeps the baton for a few yield points)
+		// schedule: uniform picks among the runnable workers; in a third of the cases
+		// the picks come in runs (a worker keeps the baton for a few yield points); in
+		// another third a priority schedule with 0-6 change points (SchedMode 1)
+		style := uni(t, 3, "schedstyle")
+		if style == 2 {
+			c.Cfg.SchedMode = 1
+			for i := 0; i < 6; i++ {
+				c.Cfg.Sched = append(c.Cfg.Sched, uni(t, 100, "prio"))
+			}
+			depth := []int{12, 40, 100, 250}[uni(t, 4, "depth")]
+			ncp := uni(t, 7, "nchange")
+			for i := 0; i < ncp; i++ {
+				c.Cfg.Sched = append(c.Cfg.Sched, uni(t, depth, "changeat"))
+			}
+			return c
+		}
 		n := rapid.IntRange(0, 260).Draw(t, "schedlen")
-		runs := rapid.Bool().Draw(t, "runs")
+		runs := style == 1
 		for len(c.Cfg.Sched) < n {
 			pick := uni(t, 6, "pick")
 			rep := 1
@@ -164,6 +178,7 @@ func TestC05Par(t *testing.T) {
 		c := gen.Draw(rt, "case")
 		c.Cfg.Profile = "C05-par"
 		c.Cfg.Sched = nil
+		c.Cfg.SchedMode = 0
 		c.Cfg.Extra = []int{8 + uni(rt, 33, "rep")}
 		// a share of the reader ops go through one snapshot taken before the phase
 		for wi := 2; wi < len(c.Cfg.Workers); wi++ {
